@@ -649,7 +649,7 @@ func c20DecompSearch(t *testing.T, r *rep.Report, deadline time.Time, k *int64) 
 	}
 	readers := []string{"buffer", "opaque"}
 	rn := &c20DRunner{scratch: make([]byte, 32*1024)}
-	type classKey struct{ enc, in, rk string }
+	var mine int64
 	for _, enc := range c20Encs() {
 		for _, in := range c20Inputs(false) {
 			valid, err := c20IndepEncode(enc.Name, in.Data)
@@ -695,7 +695,7 @@ func c20DecompSearch(t *testing.T, r *rep.Report, deadline time.Time, k *int64) 
 				}
 				for l := 0; l <= maxLen; l++ {
 					for _, seq := range c20Seqs(c20DKinds, l) {
-						fullPairs := rep.Thorough() && in.Short && l <= 3
+						fullPairs := rep.Thorough() && in.Short && l <= 3 && rk == "buffer"
 						stop := false
 						c20Instantiate(seq, vars, streams, reps, fullPairs, func(h []c20DOp) {
 							if stop {
@@ -705,7 +705,8 @@ func c20DecompSearch(t *testing.T, r *rep.Report, deadline time.Time, k *int64) 
 							if !r.Mine(*k) {
 								return
 							}
-							if *k%512 == 0 && !deadline.IsZero() && time.Now().After(deadline) {
+							mine++
+							if mine%256 == 0 && !deadline.IsZero() && time.Now().After(deadline) {
 								r.NotExhaustive(fmt.Sprintf("budget reached in decompressor histories at enc=%s input=%s reader=%s length=%d", enc.Name, in.Name, rk, l))
 								stop = true
 								return
@@ -1034,7 +1035,7 @@ func TestVerifC20Hist(t *testing.T) {
 		"for 6 encodings x inputs {empty, 'a', 300x'ab', 256 distinct bytes, 64 KB LCG}; each history is replayed on a fresh instance and followed by the oracle operation. " +
 		"Decompressor operations: V Reset(valid)+read all, C Reset(corrupt)+read all, N Reset(http.NoBody), X Close, R Read, P Close+Reset(http.NoBody) (pool put); source handed to Reset both as *bytes.Buffer (as connect-go/tracer do) and as an opaque io.Reader. " +
 		"corrupt = every single-bit flip and every proper prefix of the valid stream for the two short inputs (fixed set of 14 cuts + 18 flips for the longer ones); histories with one C take every corruption; " +
-		"histories with several C take the diagonal (same corruption at every C) plus the full product of class representatives (one corruption per distinct fresh-instance behaviour); thorough additionally takes the full product for two C up to length 3. " +
+		"histories with several C take the diagonal (same corruption at every C) plus the full product of class representatives (one corruption per distinct fresh-instance behaviour); thorough additionally takes the full product of all corruptions for two C up to length 3 (source as *bytes.Buffer). " +
 		"Compressor operations: B Reset(new buffer), D Reset(io.Discard), F Reset(failing sink), W Write(data), X Close; every closed segment on a good sink and the final Reset+Write+Close are decoded by a fresh decoder of the underlying library. " +
 		"A history counts as non-trivial when it contains at least one operation other than a valid decode (decompressor) / at least one operation (compressor); histories are distinct by construction."
 	if data := rep.ReplayInput(); data != nil {
@@ -1044,5 +1045,10 @@ func TestVerifC20Hist(t *testing.T) {
 	deadline := rep.Deadline()
 	var k int64
 	c20CompSearch(t, r, deadline, &k)
+	kc := k
 	c20DecompSearch(t, r, deadline, &k)
+	if r.Exhaustive {
+		r.Extra["enumeration_size_compressor_histories"] = kc
+		r.Extra["enumeration_size_decompressor_histories"] = k - kc
+	}
 }
